@@ -60,3 +60,16 @@ def oracle(case, out):
 
 def matches_known(key, case, out, failure):
     return False
+
+
+def extra_coverage():
+    """How many of the packets this run exercised satisfy the (computable, proved sound) hypothesis wf_packetb of the
+    round-trip theorems: evaluated in the model only."""
+    import lib
+    cs = ["BUILD W " + dns.pkt_text(p) for p in list(DESCS.values())[:4000]]
+    if not cs:
+        return {}
+    res = lib.run_driver(lib.MODELDRV, cs, timeout=600)
+    n1 = sum(1 for r in res if r == "1")
+    bad = [c[8:208] for c, r in zip(cs, res) if r != "1"][:3]
+    return {"hypothesis_wf_packetb_true": n1, "hypothesis_evaluated": len(cs), "hypothesis_false_samples": bad}
